@@ -9,6 +9,7 @@
 //	           r = value | value,value | E<class> | - (not applicable)
 //	gvh-num str   : <id> <hex string> [base]  -> <id> D:<StringToNumber> T:<tonumber(s[,base])> L:<load("return "..s)> U:<ToNumberValue / ToInt>
 //	gvh-num for   : <id> <start> <limit> <step> <cap> [assign]  -> <id> <status> T:<v;v;...> E:<class>
+//	gvh-num prog  : <id> <hex source> [args=v,v,..] -> <id> <status> T:<events> R:<results> E:.. O:.. X:..   (hx.LuaEngine)
 //	gvh-num f2i   : <id> F<bits> -> <id> I<int64(f)> (samples the platform assumption on float->int conversion)
 package main
 
@@ -20,6 +21,8 @@ import (
 	"os"
 	"strconv"
 	"strings"
+
+	"gvharness/hx"
 
 	"github.com/arnodel/golua/lib"
 	rt "github.com/arnodel/golua/runtime"
@@ -492,6 +495,9 @@ func main() {
 		forEngine(in, out)
 	case "f2i":
 		f2iEngine(in, out)
+	case "prog":
+		// whole Lua programs (hx engine "lua": fresh runtime per case, emit() records events)
+		hx.LuaEngine(in, out, nil)
 	default:
 		fmt.Fprintln(os.Stderr, "unknown engine", os.Args[1])
 		os.Exit(2)
